@@ -864,6 +864,5 @@ func (u *Unit) scanStub(st *State, instr ssa.Instruction, recv T, args []Value) 
 		bad := u.fresh("scanpartial", srt)
 		u.store(st, p, Ite(fails, bad, good))
 	}
-	u.event(st, "Scan", append([]Value{recv}, args...))
-	return one(st, errv)
+	return u.recordRes(u.event(st, "Scan", append([]Value{recv}, args...)), one(st, errv))
 }
